@@ -54,7 +54,7 @@ class Ctx:
                               [constraint=<name>])  or dict(file=<ndjson path of ready-made behaviours>)
                  or dict(rust=[args for `chk gen`])"""
         self.jobno += 1
-        jn = "%s_%s_%02d_%s" % (self.prop, self.tier, self.jobno, name)
+        jn = "%s_%s_p%d_%02d_%s" % (self.prop, self.tier, os.getpid(), self.jobno, name)
         d = workdir(jn)
         cfg = dict(DEFAULT_CFG, **(cfg or {}))
         beh = os.path.join(d, "behaviours.ndjson")
@@ -189,7 +189,7 @@ class Ctx:
         the transcription or the reference is wrong - the code is judged by the trace checks only."""
         from vlib import gen_module, run_tlc, tlc_stats
         self.jobno += 1
-        d = workdir("%s_%s_%02d_mc_%s" % (self.prop, self.tier, self.jobno, name))
+        d = workdir("%s_%s_p%d_%02d_mc_%s" % (self.prop, self.tier, os.getpid(), self.jobno, name))
         cfgtext = "INIT %s\nNEXT %s\nCHECK_DEADLOCK FALSE\n" % (init, nxt)
         for inv in invariants:
             cfgtext += "INVARIANT %s\n" % inv
@@ -243,6 +243,13 @@ class Ctx:
         with open(trace) as f:
             for line in f:
                 b = json.loads(line)
+                for e in b.get("events", []):
+                    if e.get("split_ok") is False:
+                        # the header lines of the pretty list are not part of any property; the harness splits on them
+                        raise ToolError("the pretty list could not be split into items: its header format changed, "
+                                        "update split_pretty in harness/src/run.rs (behaviour %s)" % b.get("id"))
+                    if e.get("ev") == "ToolError":
+                        raise ToolError("harness: %s (behaviour %s)" % (e.get("what"), b.get("id")))
                 if nontrivial is None or nontrivial(b):
                     self.nontrivial.add(sha(json.dumps([b.get("src"), b.get("cfg"), b.get("ops")])))
                     if taken < 2 and len(self.cov["samples"]) < 8 and (sample_filter is None or sample_filter(b)):
